@@ -76,7 +76,7 @@ struct TaskE {
 struct Model {
     slots: Vec<Option<SlotE>>,
     tasks: Vec<Option<TaskE>>,
-    stacks: HashMap<(usize, i64), Vec<u64>>,
+    stacks: HashMap<(usize, i64), Vec<(u64, u64)>>,
     expect: Vec<Exp>,
     collectors: Vec<Dispatch>,
     filters: Vec<FilterSpec>,
@@ -128,20 +128,29 @@ fn expect(k: i64, kind: &'static str, uid: u64, aux: u64) {
     m(|mo| mo.expect.push(Exp { k, kind, uid, aux, t }));
 }
 fn stack_push(k: i64, uid: u64) {
+    stack_push_h(k, uid, 0)
+}
+fn stack_pop(k: i64, uid: u64) {
+    stack_pop_h(k, uid, 0)
+}
+/// `raw`: the id the entering handle carries (0 for scopes that nest strictly). A collector that hands out one id per
+/// handle sees the same span entered under different ids; an exit removes the entry of *its* handle, wherever it is.
+fn stack_push_h(k: i64, uid: u64, raw: u64) {
     if k < 0 {
         return;
     }
     let t = detsim::current();
-    m(|mo| mo.stacks.entry((t, k)).or_default().push(uid));
+    m(|mo| mo.stacks.entry((t, k)).or_default().push((uid, raw)));
 }
-fn stack_pop(k: i64, uid: u64) {
+fn stack_pop_h(k: i64, uid: u64, raw: u64) {
     if k < 0 {
         return;
     }
     let t = detsim::current();
     m(|mo| {
         if let Some(v) = mo.stacks.get_mut(&(t, k)) {
-            if let Some(p) = v.iter().rposition(|u| *u == uid) {
+            let p = v.iter().rposition(|u| *u == (uid, raw)).or_else(|| v.iter().rposition(|u| u.0 == uid));
+            if let Some(p) = p {
                 v.remove(p);
             }
         }
@@ -152,7 +161,7 @@ fn stack_top(k: i64) -> u64 {
         return 0;
     }
     let t = detsim::current();
-    m(|mo| mo.stacks.get(&(t, k)).and_then(|v| v.last().copied()).unwrap_or(0))
+    m(|mo| mo.stacks.get(&(t, k)).and_then(|v| v.last().map(|x| x.0)).unwrap_or(0))
 }
 fn new_uid() -> u64 {
     m(|mo| {
@@ -282,7 +291,7 @@ fn exec(op: &Value) {
             if let Some(e) = take_slot(slot) {
                 if !e.disabled {
                     expect(e.k, "enter", e.uid, 0);
-                    stack_push(e.k, e.uid);
+                    stack_push_h(e.k, e.uid, e.span.id().map_or(0, |i| i.into_u64()));
                 }
                 let guard = e.span.entered();
                 TC.with(|tc| tc.borrow_mut().guards[g] = Some(GuardE { g: guard, uid: e.uid, k: e.k, disabled: e.disabled }));
@@ -294,7 +303,7 @@ fn exec(op: &Value) {
             if let Some(ge) = ge {
                 if !ge.disabled {
                     expect(ge.k, "exit", ge.uid, 0);
-                    stack_pop(ge.k, ge.uid);
+                    stack_pop_h(ge.k, ge.uid, ge.g.id().map_or(0, |i| i.into_u64()));
                 }
                 let span = ge.g.exit();
                 put_slot(slot, SlotE { span, uid: ge.uid, k: ge.k, disabled: ge.disabled });
@@ -306,7 +315,7 @@ fn exec(op: &Value) {
             if let Some(ge) = ge {
                 if !ge.disabled {
                     expect(ge.k, "exit", ge.uid, 0);
-                    stack_pop(ge.k, ge.uid);
+                    stack_pop_h(ge.k, ge.uid, ge.g.id().map_or(0, |i| i.into_u64()));
                     expect(ge.k, "try_close", ge.uid, 0);
                 }
                 drop(ge.g);
